@@ -451,7 +451,47 @@ Lemma find_member_view : forall s v, ps_mem s v = mem v (to_list s).
 Proof.
   intros s v. unfold ps_mem, to_list, mem.
   induction (col s) as [|o r IH]; simpl; auto.
-  rewrite Z.eqb_sym. destruct (Z.eqb (pval s o) v); simpl; auto.
+  destruct (Z.eqb_spec (pval s o) v); destruct (Z.eqb_spec v (pval s o)); try congruence; simpl; auto.
+Qed.
+
+Lemma filter_all : forall (A : Type) (p : A -> bool) l, (forall x, In x l -> p x = true) -> filter p l = l.
+Proof.
+  induction l; simpl; intros H; auto. rewrite (H a (or_introl eq_refl)). f_equal. apply IHl. intros; apply H; auto.
+Qed.
+
+Lemma find_member_In : forall f v c o, find_member f v c = Some o -> In o c /\ f o = v.
+Proof.
+  induction c as [|a r IH]; simpl; intros o H; [discriminate|].
+  destruct (Z.eqb_spec (f a) v).
+  - inversion H; subst; auto.
+  - destruct (IH _ H); auto.
+Qed.
+
+Lemma discard_aux : forall (f : nat -> Z) v c, NoDup c -> NoDup (map f c) ->
+  map f (match find_member f v c with
+         | Some o => filter (fun x => negb (Nat.eqb x o)) c
+         | None => c end) = filter (fun y => negb (Z.eqb v y)) (map f c).
+Proof.
+  intros f v. induction c as [|a r IH]; intros N1 N2; simpl; auto.
+  inversion N1; subst. inversion N2; subst.
+  destruct (Z.eqb_spec (f a) v); destruct (Z.eqb_spec v (f a)); try congruence; simpl.
+  - rewrite Nat.eqb_refl. simpl.
+    rewrite filter_all.
+    + rewrite filter_all; auto. intros y Hy. apply negb_true_iff. apply Z.eqb_neq. intro; subst. congruence.
+    + intros x Hx. apply negb_true_iff. apply Nat.eqb_neq. intro; subst; auto.
+  - specialize (IH H2 H4).
+    destruct (find_member f v r) as [o|] eqn:F; simpl.
+    + destruct (find_member_In _ _ _ _ F) as [Ho Hv].
+      destruct (Nat.eqb_spec a o); [subst; congruence|]. simpl. f_equal; auto.
+    + f_equal; auto.
+Qed.
+
+Lemma NoDup_snoc_Z : forall (l : list Z) x, NoDup l -> ~ In x l -> NoDup (l ++ [x]).
+Proof.
+  induction l; simpl; intros x ND Hx; [constructor; auto; constructor|].
+  inversion ND; subst. constructor.
+  - intro H. apply in_app_or in H. destruct H as [H|[->|[]]]; auto.
+  - apply IHl; auto.
 Qed.
 
 Lemma ps_add_view : forall s v, wfs s ->
@@ -461,38 +501,84 @@ Proof.
   destruct (mem v (to_list s)) eqn:M; [split; [split|]; auto|].
   pose proof (append_view s v W) as [W1 E]. unfold pl_append in *. simpl in *.
   split; [split; auto|auto].
-  rewrite E. clear -ND M.
-  assert (~ In v (to_list s)).
-  { intro H. unfold mem in M. rewrite <- not_true_iff_false in M. apply M.
-    apply existsb_exists. exists v; split; auto. apply Z.eqb_refl. }
-  induction (to_list s) as [|a r IH]; simpl; [constructor; auto; constructor|].
-  inversion ND; subst. constructor.
-  - intro Hin. apply in_app_or in Hin. destruct Hin as [Hin|[->|[]]]; auto. apply H; left; auto.
-  - apply IH; auto. intro; apply H; right; auto.
+  rewrite E. apply NoDup_snoc_Z; auto.
+  intro H. unfold mem in M. rewrite <- not_true_iff_false in M. apply M.
+  apply existsb_exists. exists v; split; auto. apply Z.eqb_refl.
 Qed.
 
 Lemma ps_discard_view : forall s v, wfs s ->
   wfs (ps_discard s v) /\ to_list (ps_discard s v) = set_discard v (to_list s).
 Proof.
-  intros s v [[NDc B] ND]. unfold ps_discard, set_discard.
-  assert (G : forall c, NoDup c -> NoDup (map (pval s) c) ->
-    map (pval s) (match find_member (pval s) v c with
-                  | Some o => filter (fun x => negb (Nat.eqb x o)) c
-                  | None => c end) = filter (fun y => negb (Z.eqb v y)) (map (pval s) c)).
-  { induction c as [|a r IH]; intros N1 N2; simpl; auto.
-    inversion N1; subst. inversion N2; subst. rewrite (Z.eqb_sym v).
-    destruct (Z.eqb_spec (pval s a) v); simpl.
-    - rewrite Nat.eqb_refl. simpl.
-      rewrite (proj2 (filter_ext_in_iff _ (fun _ => true) r)).
-      + clear. induction r; simpl; auto. f_equal; auto.
-        rewrite filter_true_id. 2: { intros. reflexivity. }
-        induction (map (pval s) r); simpl; auto.
-      + intros x Hx. apply negb_true_iff. apply Nat.eqb_neq. intro; subst; auto.
-    - rewrite <- IH by assumption.
-      destruct (find_member (pval s) v r) as [o|] eqn:F; simpl; auto.
-      assert (a <> o).
-      { clear -F H1. revert F. induction r; simpl; intros; [discriminate|].
-        destruct (Z.eqb (pval s a0) v); [inversion F; subst; intro; subst; apply H1; left; auto|].
-        apply IHr; auto. intro; apply H1; right; auto. }
-      destruct (Nat.eqb_spec a o); [congruence|]. reflexivity. }
-Abort.
+  intros s v [[NDc B] ND].
+  assert (E : to_list (ps_discard s v) = set_discard v (to_list s)).
+  { pose proof (discard_aux (pval s) v (col s) NDc ND) as G.
+    unfold ps_discard, set_discard, to_list in *. destruct (find_member (pval s) v (col s)); simpl; auto. }
+  split; auto. split.
+  - unfold ps_discard. destruct (find_member (pval s) v (col s)); [|split; auto].
+    apply wf_with_col; [apply NoDup_filter; auto|intros o Ho; apply filter_In in Ho; apply Ho|split; auto].
+  - rewrite E. apply NoDup_filter; auto.
+Qed.
+
+Lemma ps_update_view : forall vs s, wfs s ->
+  wfs (fold_left ps_add vs s) /\ to_list (fold_left ps_add vs s) = set_union (to_list s) vs.
+Proof.
+  induction vs as [|v r IH]; intros s W; simpl; auto.
+  destruct (ps_add_view s v W) as [W1 E1]. destruct (IH _ W1) as [W2 E2].
+  split; auto. rewrite E2, E1. reflexivity.
+Qed.
+
+Lemma set_diff_fold : forall vs (l : list Z),
+  fold_left (fun acc v => set_discard v acc) vs l = set_diff l vs.
+Proof.
+  induction vs as [|v r IH]; intros l; simpl.
+  - unfold set_diff. symmetry. apply filter_all. auto.
+  - rewrite IH. unfold set_diff, set_discard. clear.
+    induction l as [|a t IHl]; simpl; auto.
+    destruct (Z.eqb_spec v a); simpl.
+    + subst. rewrite Z.eqb_refl. simpl. auto.
+    + destruct (Z.eqb_spec a v); [congruence|]. simpl. destruct (mem a r); simpl; auto. f_equal; auto.
+Qed.
+
+Lemma ps_diffupdate_view : forall vs s, wfs s ->
+  wfs (fold_left ps_discard vs s) /\ to_list (fold_left ps_discard vs s) = set_diff (to_list s) vs.
+Proof.
+  intros vs s W. rewrite <- set_diff_fold. revert s W.
+  induction vs as [|v r IH]; intros s W; simpl; auto.
+  destruct (ps_discard_view s v W) as [W1 E1]. destruct (IH _ W1) as [W2 E2].
+  split; auto. rewrite E2, E1. reflexivity.
+Qed.
+
+(* the single-element operations and the unions / differences built from them; the bulk
+   intersection / symmetric-difference operations (which remove and add in the iteration order of
+   builtin sets) are compared with the implementation and the builtin by the check only *)
+Definition ps_covered (o : sop) : bool :=
+  match o with
+  | SAdd _ | SDiscard _ | SRemove _ | SClear => true
+  | SUpdate (ASet _) | SUpdate (AList _) | SDiffUpdate (ASet _) | SDiffUpdate (AList _) => true
+  | SIor (ASet _) | SIsub (ASet _) => true
+  | _ => false
+  end.
+
+Theorem proxy_set_is_view_partial : forall ord s o, wfs s -> ps_covered o = true ->
+  wfs (snd (ps_step ord s o)) /\
+  (fst (ps_step ord s o), to_list (snd (ps_step ord s o))) = psop_ref ord (to_list s) o.
+Proof.
+  intros ord s o W C. unfold psop_ref.
+  destruct o as [v|v|v| | |a|a|a|a|a|a|a|a]; try discriminate; cbn [ps_step py_set_op fst snd].
+  - destruct (ps_add_view s v W) as [W1 E]. split; auto. rewrite E; reflexivity.
+  - destruct (ps_discard_view s v W) as [W1 E]. split; auto. rewrite E; reflexivity.
+  - unfold ps_remove. rewrite find_member_view.
+    destruct (mem v (to_list s)); simpl; auto.
+    destruct (ps_discard_view s v W) as [W1 E]. split; auto. rewrite E; reflexivity.
+  - split; [|reflexivity]. split; [apply wf_with_col; [constructor|intros o []|apply W]|constructor].
+  - destruct a as [vs|vs| |]; try discriminate; simpl.
+    + destruct (ps_update_view (ord vs) s W) as [W1 E]. split; auto. rewrite E; reflexivity.
+    + destruct (ps_update_view vs s W) as [W1 E]. split; auto. rewrite E; reflexivity.
+  - destruct a as [vs|vs| |]; try discriminate; simpl.
+    + destruct (ps_diffupdate_view (ord vs) s W) as [W1 E]. split; auto. rewrite E; reflexivity.
+    + destruct (ps_diffupdate_view vs s W) as [W1 E]. split; auto. rewrite E; reflexivity.
+  - destruct a as [vs|vs| |]; try discriminate; simpl.
+    destruct (ps_update_view (ord vs) s W) as [W1 E]. split; auto. rewrite E; reflexivity.
+  - destruct a as [vs|vs| |]; try discriminate; simpl.
+    destruct (ps_diffupdate_view (ord vs) s W) as [W1 E]. split; auto. rewrite E; reflexivity.
+Qed.
